@@ -54,7 +54,7 @@ Qed.
 Lemma runs_read_fullN n bs x r : split_atN n bs = Some (x, r) -> runs (read_fullN n) bs x r.
 Proof.
   unfold split_atN. intros H a p. unfold read_fullN. cbn [inp].
-  destruct (N.of_nat (length bs) <? n); [discriminate|].
+  destruct (shortN n bs); [discriminate|].
   apply (runs_read_full _ _ _ _ H).
 Qed.
 
